@@ -598,6 +598,14 @@ class Interp:
             raise Unsupported("truthiness of opaque value %s" % v.what)
         if isinstance(v, LArr) and concrete_int(v.n) == 1:
             return self.truth(v.get(0))  # numpy: the truth value of a one-element array is that of its element
+        if isinstance(v, PyObjV):
+            # an object is true unless its class defines __bool__ / __len__
+            for special in ("__bool__", "__len__"):
+                fi = v.module.resolve_method(v.cls, special)
+                if fi is not None:
+                    r = self.call_function(fi, [v], {})
+                    return self.truth(r) if special == "__bool__" else (to_z3num(r) > 0 if is_z3(r) else r > 0)
+            return True
         raise Unsupported("truthiness of %r" % (v,))
 
     # ------------------------------------------------------------------------------------------ sequences
